@@ -211,7 +211,9 @@ pub fn run_c13(ctx: &Ctx) -> Report {
         *b = rng.byte();
     }
     for l in 0..=64usize {
-        let s = &arena[..l];
+        // the slice starts at a varying offset from the (aligned) start of the arena
+        let off = (l * 5 + 1) % 8;
+        let s = &arena[off..off + l];
         macro_rules! casts {
             ($P:ty, $sz:expr) => {{
                 let r = catch(|| pod_from_bytes::<$P>(s).map(|p| (p as *const $P as usize - s.as_ptr() as usize, core::mem::size_of::<$P>(), bytes_of(p))));
